@@ -579,8 +579,37 @@ fn c05_case<A: Subject>(run: &Run, cfg: &Cfg, st: &Start, word: &[Op], cut: usiz
         break;
       }
     }
+    // second cycle: close the reopened arena and open it once more
+    let second = if mode.shared() && ok {
+      let s = r2.a.snap(64);
+      Some((s, r2.a.allocated_memory().to_vec(), r2.all_live().map(|l| (l.m, l.pat)).collect::<Vec<_>>()))
+    } else {
+      None
+    };
     let (a2, _) = r2.into_arena();
     drop(a2);
+    if let Some((s1, img1, lives1)) = second {
+      let mut c2b = *cfg;
+      c2b.cap = want_cap as u32;
+      match open::<A>(&path, open_opts(&c2b, CapOpt::Same, false), Mode::MapMut) {
+        Err(e) => bad("second-reopen-refused", format!("{}", e)),
+        Ok(a3) => {
+          run.eval(1);
+          let s3 = a3.snap(64);
+          if s3.allocated != s1.allocated || s3.discarded != s1.discarded || s3.min_segment_size != s1.min_segment_size || s3.nodes != s1.nodes {
+            bad("second-cycle-state", format!("after a second close + reopen: {:?} -> {:?}", s1, s3));
+          }
+          if a3.allocated() == img1.len() && a3.allocated_memory() != &img1[..] {
+            bad("second-cycle-bytes", "bytes below the cursor differ after a second close + reopen".into());
+          }
+          for (m, pat) in &lives1 {
+            if m.1 > 0 && m.0 + m.1 <= a3.capacity() && a3.memory()[m.0..m.0 + m.1].iter().any(|b| b != pat) {
+              bad("second-cycle-live-bytes", format!("live range [{},{}) lost its bytes over two reopen cycles", m.0, m.0 + m.1));
+            }
+          }
+        }
+      }
+    }
     if mode.cow() {
       // a copy-on-write session is private: the bytes that were in the file stay as they were
       let after = std::fs::read(&path).unwrap();
